@@ -86,7 +86,7 @@ Fixpoint primary_loop (ttl : N) (s : pstate) (evs : list pevent) : pexit * bool 
     | PRenewExpired => (XExpired, true, p_since s + p_wait s)
     | PRenewErr =>
       let since := p_since s + p_wait s in
-      if ttl <? since + retry_ms then (XExpired, true, since + retry_ms)   (* gives up: sleeps one more second, then leaves *)
+      if ttl <? since + retry_ms then (XExpired, true, N.max since ttl)    (* gives up: holds the role for what is left of the TTL, then leaves *)
       else primary_loop ttl {| p_since := since; p_wait := retry_ms |} r
     | PDemote => (XDemoted, true, p_since s)
     | PHandoff connected ok =>
